@@ -90,6 +90,18 @@ pub fn subcommand(args: &[String]) -> Option<i32> {
             }
             Some(0)
         }
+        "rustc-smoke" => {
+            let n: usize = args.get(1).and_then(|s| s.parse().ok()).unwrap_or(20);
+            let cf = args.get(2).map(|s| s == "cf").unwrap_or(true);
+            let t0 = std::time::Instant::now();
+            let (cases, counters) = crate::rustc_tier::make_cases(5, 1, n, cf, if cf { 4 } else { 0 });
+            println!("made {} cases in {:?}: {:?}", cases.len(), t0.elapsed(), counters.iter().filter(|(k, _)| !k.starts_with("label")).collect::<Vec<_>>());
+            match crate::rustc_tier::run_batch("smoke", &cases, cf) {
+                Ok(n) => println!("batch ok, {n} byte checks, {:?}", t0.elapsed()),
+                Err(f) => println!("batch failed: {} [{}]\n{}", f.msg, f.signature, serde_json::to_string_pretty(&f.decoded).unwrap_or_default().chars().take(3000).collect::<String>()),
+            }
+            Some(0)
+        }
         "show-tape" => {
             // show-tape <hex> [plain]: print the program a tape decodes to
             let bytes = crate::tape::unhex(&args[1]).unwrap_or_default();
